@@ -6,6 +6,7 @@ from .seq import SBytes, SByteArray, SStr, sym_int, sym_float, sym_round, sym_le
 from .ints import SymTable
 
 ASSUMPTIONS = {
+    "_": ["construct.StringEncoded._decode re-stated with `except Exception` instead of a bare `except:` (same behaviour for the code's own exceptions)"],
     "hdlc": ["bytes/bytearray in han.hdlc -> SBytes/SByteArray (CPython sequence semantics for append/extend/clear/find/slicing/iteration)",
              "han.hdlc._LOGGER -> no-op logger",
              "FastFrameCheckSequence16.fast_frame_check_crc_table -> SymTable over the list computed by the repository at import "
@@ -15,7 +16,9 @@ ASSUMPTIONS = {
            "DataReadout._calculate_crc16 if-converted from its current source (branch arms that only assign locals become ite terms)"],
     "obis": ["han.obis._obis_pattern -> SymPattern; int -> sym_int; f-strings of Obis.to_reduced_str/__str__/to_group_cdr_str rewritten from source to symbolic concatenation"],
     "decoders": ["construct.core io/struct/bytes2bits/bits2integer/BytesIOWithOffsets -> list-backed symbolic-aware equivalents",
-                 "han.cosem.datetime -> datetime model with CPython's validation rules; float/round/int in aidon/kaifa/kamstrup -> delta-model float, decimal rounding model"],
+                 "han.cosem.datetime -> datetime model with CPython's validation rules; float/round/int in aidon/kaifa/kamstrup -> delta-model float, decimal rounding model",
+                 "conditional expressions of aidon._normalize_parsed_items rewritten from source to a non-forking numeric If (int/float type of the arms not distinguished)",
+                 "Decimal(10) ** symbolic exponent forks over the feasible exponent values"],
     "mc": ["han.meter_connection._LOGGER -> no-op logger"],
 }
 
@@ -99,10 +102,45 @@ def _decoders(p):
     import han.cosem as cosem, han.aidon as aidon, han.kaifa as kaifa, han.kamstrup as kamstrup
     for name, val in models.construct_patches().items():
         p.setg(CC, name, val)
+
+    def _decode(self, obj, context, path):
+        # construct's own version uses a bare `except:` which would swallow the engine's path-control exceptions
+        try:
+            return obj.decode(self.encoding)
+        except Exception:
+            raise CC.StringError(f"cannot use encoding {self.encoding!r} to decode {obj!r}")
+    p.seta(CC.StringEncoded, "_decode", _decode)
+    # Bitwise()/BitStruct() captured construct.lib's bytes2bits (a 256-entry dict lookup) when the grammars were declared:
+    # walk the declared grammars and point those instances at the arithmetic version
+    import construct.lib as CL
+    seen, n = set(), 0
+    stack = [v for m in (cosem, aidon, kaifa, kamstrup) for v in vars(m).values() if isinstance(v, CC.Construct)]
+    while stack:
+        c = stack.pop()
+        if id(c) in seen:
+            continue
+        seen.add(id(c))
+        if isinstance(c, (CC.Transformed, CC.Restreamed)) and getattr(c, "decodefunc", None) in (CL.bytes2bits, getattr(CC, "bytes2bits", None)):
+            p.seta(c, "decodefunc", models.sym_bytes2bits)
+            n += 1
+        for v in vars(c).values():
+            if isinstance(v, CC.Construct):
+                stack.append(v)
+            elif isinstance(v, (list, tuple)):
+                stack.extend(x for x in v if isinstance(x, CC.Construct))
+            elif isinstance(v, dict):
+                stack.extend(x for x in v.values() if isinstance(x, CC.Construct))
+    INFO["bitwise_instances_patched"] = n
     p.setg(cosem, "datetime", models.fake_datetime_module)
     for mod in (aidon, kaifa, kamstrup):
         p.setg(mod, "float", sym_float); p.setg(mod, "round", sym_round); p.setg(mod, "int", sym_int)
         p.setg(mod, "isinstance", models.sym_isinstance); p.setg(mod, "hasattr", models.sym_hasattr)
+    try:
+        restore, counts = loader.rewrite(aidon, "_normalize_parsed_items", ifexp=True)
+        p.undo.append(restore)
+        INFO["aidon_ifexp_converted"] = counts.get("ifexp", 0)
+    except Exception as e:
+        INFO["aidon_ifexp_converted"] = f"failed: {e}"
     _obis(p)
 
 
